@@ -509,6 +509,11 @@ func runC19(c *Ctx) {
 		})
 	}
 	c.Min("L6-goroutine-reads-stable", 20)
+	// L7: the published rule set is read by running executions without any lock; that is free
+	// of races only because nothing writes into a container (its map, list, index, and the
+	// memory behind the list) once it may be published (the argument of C07-U2)
+	c.ruleU2("L7-published-rule-set-immutable")
+	c.Min("L7-published-rule-set-immutable", 20)
 	if n == 0 {
 		c.Lost("L5-captured-writes-locked", "stores to captured variables inside goroutines")
 	}
